@@ -6,6 +6,7 @@ CONSTANTS
   MaxClaims = 2
   BuildUnderLock = TRUE
   NotifyAlways = FALSE
+  CoalesceRebuilds = FALSE
 INVARIANTS
   TypeOK
   R_Settled
